@@ -80,6 +80,10 @@ func rewrites() []textRewrite {
 		{"go/store/blobstore/internal/git/runner.go", `(?m)^(func \(r \*Runner\) (?:Run|Start)\(ctx context\.Context, opts RunOptions, args \.\.\.string\) \([^)]*\) \{)$`, "$1\n\tdsimGitYield(args)", 2},
 		// the sealer's clock: sealer and unsealer can be given different ones (C39)
 		{"go/libraries/doltcore/remotesrv/sealer.go", `time\.Now\(\)`, "dsimSealerNow()", 4},
+		// the manifest lock time-out becomes a knob (a run may lengthen it so that a lock holder that is
+		// descheduled for a while does not turn every contended update into a time-out)
+		{"go/store/nbs/file_manifest.go", `(?m)^\tlockFileTimeout  = time\.Millisecond \* 100$`, "\tlockFileTimeoutDsimConst = time.Millisecond * 100", 1},
+		{"go/store/nbs/file_manifest.go", `(?m)^var ErrUnreadableManifest = `, "var lockFileTimeout = lockFileTimeoutDsimConst\n\nvar ErrUnreadableManifest = ", 1},
 		// the puller's table-file size: one transfer becomes many files when a run lowers it
 		{"go/libraries/doltcore/doltdb/doltdb.go", `defaultTargetFileSize, srcCS`, "DsimPullTargetFileSize, srcCS", 1},
 	}
